@@ -1806,6 +1806,8 @@ impl TestTextSelection for TextSelection {
                     let l = reftextsel.begin - self.end;
                     if l == 0 {
                         true
+                    } else if l > WHITESPACE_LIMIT {
+                        false
                     } else {
                         if let Ok(gap) =
                             resource.text_by_offset(&Offset::simple(self.end, reftextsel.begin))
@@ -1830,6 +1832,8 @@ impl TestTextSelection for TextSelection {
                     let l = self.begin - reftextsel.end;
                     if l == 0 {
                         true
+                    } else if l > WHITESPACE_LIMIT {
+                        false
                     } else {
                         if let Ok(gap) =
                             resource.text_by_offset(&Offset::simple(reftextsel.end, self.begin))
@@ -1997,6 +2001,8 @@ impl TestTextSelection for TextSelection {
                         false
                     } else if leftmost == self.end {
                         true
+                    } else if leftmost - self.end > WHITESPACE_LIMIT {
+                        false
                     } else {
                         if let Ok(gap) =
                             resource.text_by_offset(&Offset::simple(self.end, leftmost))
@@ -2031,6 +2037,8 @@ impl TestTextSelection for TextSelection {
                         false
                     } else if self.begin == rightmost {
                         true
+                    } else if self.begin - rightmost > WHITESPACE_LIMIT {
+                        false
                     } else {
                         if let Ok(gap) =
                             resource.text_by_offset(&Offset::simple(rightmost, self.begin))
